@@ -202,8 +202,8 @@ def run(chk):
             chk.violation("corpus program prints %s, the documented rules give %s" % (got, o["expected"]),
                           {"match_key": o.get("known"), "source": o["source"], "expected": o["expected"], "kind": "corpus"})
     # destructor clause on arbitrary object graphs: heap-shape programs (sharing, cycles, temporaries) with a destructor in the class,
-    # collections disabled, against the reference-counting model (Life.Model); the variables of main die in hash-map order at the
-    # very end, so that tail is compared as a multiset
+    # collections disabled, against the reference-counting model (Life.Model); the variables of main die in reverse order of
+    # declaration at the very end, and the trace is compared line for line
     import heapgen
     from framework import run_guarded
     lps = []
@@ -218,9 +218,9 @@ def run(chk):
         got = evallib.split_result(a).get("echo_lines") if a.startswith("ok ") else [a[:80]]
         body, _, fin = m[len("trace "):].partition(" ## ")
         wb = body.split("|") if body else []
-        wf = sorted(fin.split("|")) if fin else []
-        if not (got[:len(wb)] == wb and sorted(got[len(wb):]) == wf) and first is None:
-            first = ("object lifetime: implementation prints %s, reference counting prescribes %s then (in any order) %s" % (got, wb, wf),
+        wf = fin.split("|") if fin else []
+        if not (got[:len(wb)] == wb and got[len(wb):] == wf) and first is None:
+            first = ("object lifetime: implementation prints %s, reference counting prescribes %s then (as main's variables die, last declared first) %s" % (got, wb, wf),
                      {"source": hp.source(), "model_line": "life " + hp.model_ops(), "kind": "lifetime"})
     # `= default` constructors bind their parameters to the fields of the same name AFTER the field initialisers have run (an
     # initialiser never overwrites a constructor argument), in a base class reached through super(...) as well
